@@ -39,6 +39,9 @@ type c47Member struct {
 	who   string
 	index int
 	late  bool // started only after the competing success
+	// racer: started once everybody else is in place; the competing success
+	// lands during its state query (right after the stub answered "not yet")
+	racer bool
 	run   func() error
 }
 
@@ -63,6 +66,14 @@ type c47Group struct {
 	// gate holds back chain calls made while the members are still being
 	// launched (a member whose slot is the current block submits at once)
 	gate chan struct{}
+	// raceWho: the participant during whose first state query the competing
+	// success lands
+	raceWho   string
+	raceFired bool
+	// mustReturn: a released member is settled only when it has returned
+	// (relay entry with failing submissions: the failed call is followed by
+	// the IsEntryInProgress query, and the member returns in every case)
+	mustReturn bool
 }
 
 func c47NewGroup(height uint64, winner int) *c47Group {
@@ -102,6 +113,21 @@ func (g *c47Group) endCall(idx int, outcome string) {
 	g.mu.Lock()
 	g.calls[idx].End, g.calls[idx].Outcome = s, outcome
 	g.mu.Unlock()
+}
+
+// raceNow is called by the chain stub inside a state query, after it has
+// computed the ("not yet") answer and before it returns it. It reports
+// whether the competing success must land now; the stub then performs it
+// (state flip + event to whoever is subscribed at this instant) and only
+// afterwards returns the stale answer to the member.
+func (g *c47Group) raceNow(who string) bool {
+	g.mu.Lock()
+	defer g.mu.Unlock()
+	if g.raceWho == "" || g.raceWho != who || g.raceFired || g.done {
+		return false
+	}
+	g.raceFired = true
+	return true
 }
 
 func (g *c47Group) isDone() bool { g.mu.Lock(); defer g.mu.Unlock(); return g.done }
@@ -227,10 +253,12 @@ func (g *c47Group) await(cond func() bool) bool {
 // chain calls that were nevertheless observed after the success).
 func (g *c47Group) drive(r *verifkit.Run, desc string, members []*c47Member, extBlock uint64, memberOf func(owner string) string) (conclusive bool) {
 	conclusive = true
-	var late []*c47Member
+	var late, racers []*c47Member
 	for _, m := range members {
 		if m.late {
 			late = append(late, m)
+		} else if m.racer {
+			racers = append(racers, m)
 		} else {
 			g.launch(r, desc, m)
 		}
@@ -238,7 +266,7 @@ func (g *c47Group) drive(r *verifkit.Run, desc string, members []*c47Member, ext
 	if !g.await(func() bool {
 		ws := g.waits()
 		for _, m := range members {
-			if !m.late && len(ws[m.who]) == 0 && !g.isReturned(m.who) {
+			if !m.late && !m.racer && len(ws[m.who]) == 0 && !g.isReturned(m.who) {
 				return false
 			}
 		}
@@ -260,7 +288,7 @@ func (g *c47Group) drive(r *verifkit.Run, desc string, members []*c47Member, ext
 		close(g.gate)
 		if !g.await(func() bool {
 			for who := range rel {
-				if g.finishedCalls(who) == 0 && !g.isReturned(who) {
+				if (g.mustReturn || g.finishedCalls(who) == 0) && !g.isReturned(who) {
 					return false
 				}
 			}
@@ -269,6 +297,23 @@ func (g *c47Group) drive(r *verifkit.Run, desc string, members []*c47Member, ext
 			r.Inconclusive("members eligible at the launch block neither submitted nor returned")
 			return false
 		}
+	}
+	// the racers join now, at the same block: the success lands inside
+	// their state query
+	for _, m := range racers {
+		g.launch(r, desc, m)
+	}
+	if len(racers) > 0 && !g.await(func() bool {
+		ws := g.waits()
+		for _, m := range racers {
+			if len(ws[m.who]) == 0 && !g.isReturned(m.who) {
+				return false
+			}
+		}
+		return true
+	}) {
+		r.Inconclusive("the racing member neither reached its eligibility wait nor returned")
+		return false
 	}
 	post := false
 	for {
@@ -326,7 +371,7 @@ func (g *c47Group) drive(r *verifkit.Run, desc string, members []*c47Member, ext
 		g.clk.Set(nb, false)
 		if !g.await(func() bool {
 			for who, before := range rel {
-				if g.finishedCalls(who) <= before && !g.isReturned(who) {
+				if (g.mustReturn || g.finishedCalls(who) <= before) && !g.isReturned(who) {
 					return false
 				}
 			}
@@ -369,7 +414,14 @@ type c47Chain struct {
 
 func (c *c47Chain) GetConfig() *beaconchain.Config { return c.config }
 
-func (c *c47Chain) IsEntryInProgress() (bool, error) { return !c.g.isDone(), nil }
+func (c *c47Chain) IsEntryInProgress() (bool, error) {
+	answer := !c.g.isDone()
+	if answer && c.g.raceNow(c.who) {
+		// somebody else's entry lands right after "still in progress" was answered
+		c.g.externalSuccess()
+	}
+	return answer, nil
+}
 
 func (c *c47Chain) OnRelayEntrySubmitted(
 	handler func(entry *event.RelayEntrySubmitted),
@@ -410,6 +462,7 @@ type c47Script struct {
 	Winner  int    `json:"winning_call"` // k-th chain call succeeds (0: none)
 	ExtAt   uint64 `json:"external_at"`  // block at which an outsider succeeds (0: never)
 	Silent  bool   `json:"losing_calls_accepted_not_mined"`
+	Racer   int    `json:"racing_member,omitempty"` // the success lands during this member's IsEntryInProgress query
 	Variant string `json:"variant"`
 }
 
@@ -433,6 +486,10 @@ func c47RunEntry(r *verifkit.Run, sc c47Script) {
 		RelayEntryTimeout: uint64(sc.N) * sc.Step,
 	}
 	timeoutBlock := sc.Start + config.RelayEntryTimeout
+	if sc.Racer != 0 {
+		g.raceWho = c47Owner(sc.Racer)
+	}
+	g.mustReturn = !sc.Silent
 	entryInt, _ := new(big.Int).SetString(sc.Entry, 16)
 	entry := entryInt.Bytes()
 	var members []*c47Member
@@ -472,6 +529,11 @@ func c47RunEntry(r *verifkit.Run, sc c47Script) {
 	g.mu.Unlock()
 	r.Case(desc, done || sc.Rem == 0)
 	r.Count("chain_calls", int64(len(calls)))
+	g.mu.Lock()
+	if g.raceFired {
+		r.Count("success_landed_during_state_check", 1)
+	}
+	g.mu.Unlock()
 
 	slotOf := map[string]uint64{}
 	bySlot := map[uint64][]string{}
@@ -509,7 +571,11 @@ func c47RunEntry(r *verifkit.Run, sc c47Script) {
 		callers[c.Who]++
 		slot, has := slotOf[c.Who]
 		if done && c.Start > successSeq && c.Outcome != "succeeded" {
-			r.Violation("relay-entry:submit-after-success", fmt.Sprintf("%s started a submission at block %d after the entry had been submitted at block %d", c.Who, c.Block, successBlock), desc, calls)
+			fp := "relay-entry:submit-after-success"
+			if sc.Racer != 0 {
+				fp += ":landed-during-state-check"
+			}
+			r.Violation(fp, fmt.Sprintf("%s started a submission at block %d after the entry had been submitted at block %d", c.Who, c.Block, successBlock), desc, calls)
 			continue
 		}
 		if !has {
@@ -553,7 +619,7 @@ func c47RunEntry(r *verifkit.Run, sc c47Script) {
 func TestVerif_C47_RelayEntry(t *testing.T) {
 	r := verifkit.Start(t, "C47", "relay-entry")
 	defer r.Finish()
-	r.SetRule("group runs of relayEntrySubmitter.submitRelayEntry wired as SignAndSubmit wires it: all members 1..N (N in 3..64, every N, plus PRNG repeats) concurrently on one virtual clock and one chain stub; step in {1,2,3,5}; RelayEntryTimeout = N*step; entry = q*N+rem with a 200-bit PRNG q and rem in {0,1,N-1,PRNG} (first cases: entry = N exactly); variants: nobody succeeds, the k-th submission succeeds, an outsider succeeds at a PRNG block; losing submissions either fail with an error or are accepted and never mined. non-trivial = a competing success happened, or entry is divisible by the group size")
+	r.SetRule("group runs of relayEntrySubmitter.submitRelayEntry wired as SignAndSubmit wires it: all members 1..N (N in 3..64, every N, plus PRNG repeats) concurrently on one virtual clock and one chain stub; step in {1,2,3,5}; RelayEntryTimeout = N*step; entry = q*N+rem with a 200-bit PRNG q and rem in {0,1,N-1,PRNG} (first cases: entry = N exactly); variants: nobody succeeds, the k-th submission succeeds, an outsider succeeds at a PRNG block, race-state (this path has no state query before submitting; the competing success lands inside the IsEntryInProgress query that follows a member's failed submission); losing submissions either fail with an error or are accepted and never mined. non-trivial = a competing success happened, or entry is divisible by the group size")
 	r.Assume("RelayEntryTimeout = GroupSize * ResultPublicationBlockStep, as in pkg/chain/ethereum/beacon.go and pkg/chain/local_v1")
 	r.Assume("blocks advance only after the released members finished their chain call or returned; the success event reaches every subscriber on its own goroutine")
 	rng := r.Rand("scripts")
@@ -574,6 +640,10 @@ func TestVerif_C47_RelayEntry(t *testing.T) {
 			sc.Silent = true
 		}
 		switch variant {
+		case "race-state":
+			// the only state query of this path follows a failed submission
+			sc.Silent = false
+			sc.Racer = 1 + rng.Intn(n)
 		case "nobody":
 		case "winner":
 			sc.Winner = []int{1, 2, n, 1 + rng.Intn(n), 1 + rng.Intn(n)}[rng.Intn(5)]
@@ -589,10 +659,13 @@ func TestVerif_C47_RelayEntry(t *testing.T) {
 		rems := []int{0, 1, n - 1, rng.Intn(n)}
 		add(n, []string{"nobody", "winner", "external"}[n%3], rems[n%4], false)
 	}
+	for n := 3; n <= 64; n += 6 {
+		add(n, "race-state", rng.Intn(n), false)
+	}
 	for i := r.N(120, 4000); i > 0; i-- {
 		n := 3 + rng.Intn(62)
 		rems := []int{0, 1, n - 1, rng.Intn(n)}
-		add(n, []string{"nobody", "winner", "winner", "external"}[rng.Intn(4)], rems[rng.Intn(4)], false)
+		add(n, []string{"nobody", "winner", "winner", "external", "race-state"}[rng.Intn(5)], rems[rng.Intn(4)], false)
 	}
 	// the two minimal instances first, on their own, so that the recorded
 	// witness of the divisible-entry class is the same on every seed
